@@ -3,6 +3,7 @@ package bloomsearch
 import (
 	"context"
 	"errors"
+	"log/slog"
 	"time"
 )
 
@@ -159,4 +160,531 @@ func H_C05_lifecycle_histories_answer_every_accepted_batch_once() {
 	vpAssert(!late.accepted && len(late.done) == 0, "C08: IngestRows accepted a batch after Stop")
 	vpAssert(errors.Is(b.Flush(context.Background()), ErrEngineStopped), "C08: Flush after Stop did not return ErrEngineStopped")
 	vpAssert(len(b.ingestChan) == 0 && len(b.flushChan) == 0, "C05: requests were left queued after a graceful Stop")
+}
+
+// ---- C05: a producer racing with Stop ----
+
+//vp:override (*bs.bloomEntrySets).indexRow=vpIndexRowNop
+//vp:override (*bs.bloomEntrySets).buildFilters=vpBuildFiltersStub
+//vp:override bs.encodeFilterSection=vpEncodeSectionStub
+//vp:preempt 1
+//vp:maxsteps 300000
+//vp:bounds started engine, ingest buffer 1, MaxBufferedRows 1..2, no store faults; one producer goroutine calling IngestRows (good row) or Flush while the main goroutine calls Stop(background); at most 1 forced context switch to any goroutine before any channel/select/mutex operation, plus all switches at blocking points
+func H_C05_caller_racing_with_stop_is_refused_or_answered() { vpCallerRacingWithStop() }
+
+//vp:override (*bs.bloomEntrySets).indexRow=vpIndexRowNop
+//vp:override (*bs.bloomEntrySets).buildFilters=vpBuildFiltersStub
+//vp:override bs.encodeFilterSection=vpEncodeSectionStub
+//vp:preempt 2
+//vp:thorough
+//vp:maxsteps 300000
+//vp:bounds started engine, ingest buffer 1, MaxBufferedRows 1..2, no store faults; one producer goroutine calling IngestRows (good row) or Flush while the main goroutine calls Stop(background); at most 2 forced context switches to any goroutine before any channel/select/mutex operation, plus all switches at blocking points
+func H_C05_caller_racing_with_stop_two_forced_switches() { vpCallerRacingWithStop() }
+
+func vpCallerRacingWithStop() {
+	w := vpNewWorld()
+	w.failCreate, w.failWrite, w.failClose, w.failUpdate, w.failTombstone = false, false, false, false, false
+	b := vpNewIngestSystem(w, vpSysCfg{ingestBuf: 1, maxBufferedRows: 1 + nondetChoice(2), maxRowGroupRows: 1000, maxBufferedTime: time.Hour})
+	vpSetClock(2)
+	b.Start()
+	useFlush := nondetBool()
+	res := make(chan *vpBatch, 1)
+	fres := make(chan error, 1)
+	begun := make(chan struct{})
+	go func() {
+		close(begun)
+		if useFlush {
+			fres <- b.Flush(context.Background())
+			return
+		}
+		res <- vpSubmit(b, context.Background(), 0)
+	}()
+	<-begun // the caller is under way (anywhere inside its call) when Stop begins
+	vpAssert(b.Stop(context.Background()) == nil, "C08: Stop without a deadline returned an error")
+	if useFlush {
+		// Flush either was refused or was accepted and answered (it returns only when answered):
+		// in both cases it returns; a Flush stuck forever shows as a deadlock of this harness
+		ferr := <-fres
+		vpAssert(ferr == nil || errors.Is(ferr, ErrEngineStopped), "C05: Flush racing with Stop returned an unexpected error")
+		return
+	}
+	bt := <-res
+	vpCheckAnswered(w, bt)
+	if bt.accepted {
+		vpAssert(w.count(evUpdateOK, -1) == 1, "C06: a batch acknowledged nil during shutdown was never committed")
+	}
+}
+
+// ---- C07: Flush is a durability barrier; waiters are answered in acceptance order ----
+
+//vp:override (*bs.bloomEntrySets).indexRow=vpIndexRowNop
+//vp:override (*bs.bloomEntrySets).buildFilters=vpBuildFiltersStub
+//vp:override bs.encodeFilterSection=vpEncodeSectionStub
+//vp:maxsteps 300000
+//vp:bounds started engine, ingest buffer 2, MaxBufferedRows 1; a batch whose flush is held inside a wedged CreateFile, then one or two overlapping Flush callers (goroutines); the store is released only after every goroutine has parked; commit succeeds or fails
+func H_C07_flush_returns_only_after_earlier_batches_are_answered() {
+	w := vpNewWorld()
+	w.failCreate, w.failWrite, w.failClose, w.failTombstone = false, false, false, false
+	w.wedge = make(chan struct{})
+	b := vpNewIngestSystem(w, vpSysCfg{ingestBuf: 2, maxBufferedRows: 1, maxRowGroupRows: 1000, maxBufferedTime: time.Hour})
+	vpSetClock(2)
+	b.Start()
+	bt := vpSubmit(b, context.Background(), 0)
+	vpAssert(bt.accepted, "C05: IngestRows refused a batch on a running engine")
+	nFlush := 1 + nondetChoice(2)
+	results := make(chan error, 2)
+	early := false
+	for i := 0; i < nFlush; i++ {
+		go func() {
+			err := b.Flush(context.Background())
+			if len(bt.done) == 0 {
+				early = true // returned while the earlier batch was still unanswered
+			}
+			results <- err
+		}()
+	}
+	vpQuiesce() // the batch's flush is parked in CreateFile; the Flush requests are queued behind it
+	vpAssert(w.createCalls == 1, "harness: the batch's flush did not reach the wedged store")
+	vpAssert(len(results) == 0, "C07: Flush returned while the flush of an earlier accepted batch was still in flight")
+	vpAssert(len(bt.done) == 0, "C06: a batch was acknowledged while its file was still being created")
+	close(w.wedge)
+	for i := 0; i < nFlush; i++ {
+		<-results
+	}
+	vpAssert(!early, "C07: Flush returned before an earlier accepted batch was answered")
+	vpAssert(len(bt.done) == 1, "C05: the batch was not answered exactly once")
+	vpAssert(b.Stop(context.Background()) == nil, "C08: Stop returned an error")
+}
+
+// handleFlush answers its waiters in slice order, each with a blocking hand-off: a consumer that
+// receives from whichever waiter is ready sees them in order.
+//
+//vp:override (*bs.bloomEntrySets).buildFilters=vpBuildFiltersStub
+//vp:override bs.encodeFilterSection=vpEncodeSectionStub
+//vp:bounds one flush (1 partition buffer or ack-only) with 3 unbuffered waiters and one consumer goroutine selecting over all of them; every store call fails or succeeds arbitrarily
+func H_C07_waiters_of_one_flush_are_answered_in_order() {
+	w := vpNewWorld()
+	b := vpFlushEngine(w)
+	ws := []chan error{make(chan error), make(chan error), make(chan error)}
+	var order []int
+	finished := make(chan struct{})
+	go func() {
+		for len(order) < 3 {
+			select {
+			case <-ws[0]:
+				order = append(order, 0)
+			case <-ws[1]:
+				order = append(order, 1)
+			case <-ws[2]:
+				order = append(order, 2)
+			}
+		}
+		close(finished)
+	}()
+	req := flushRequest{doneChans: ws}
+	if nondetBool() {
+		req.partitionBuffers = map[string]*partitionBuffer{"p": vpPartitionBuffer("p")}
+	}
+	b.handleFlush(context.Background(), req)
+	<-finished
+	vpAssert(order[0] == 0 && order[1] == 1 && order[2] == 2, "C07: the waiters of one flush were not answered in acceptance order")
+}
+
+var vpTriggered []flushRequest
+
+func vpTriggerRec(b *BloomSearchEngine, bufs map[string]*partitionBuffer, done []chan error) {
+	vpTriggered = append(vpTriggered, flushRequest{partitionBuffers: bufs, doneChans: done})
+}
+
+// The ingest actor keeps waiters in acceptance order, never answers a Flush request itself, and
+// hands everything it holds to exactly one flush request.
+//
+//vp:override (*bs.BloomSearchEngine).triggerFlush=vpTriggerRec
+//vp:override (*bs.bloomEntrySets).indexRow=vpIndexRowNop
+//vp:bounds actor state with 0..2 earlier waiters and 0..1 buffered partition; one request: Flush, empty batch, good batch (1 row) or rejected batch; limits far away or reached
+func H_C07_actor_keeps_acceptance_order() {
+	b := &BloomSearchEngine{config: BloomSearchEngineConfig{BloomFalsePositiveRate: 0.01, RowDataCompression: CompressionNone,
+		MaxRowGroupRows: 1000, MaxRowGroupBytes: 1 << 20, MaxBufferedRows: 1000, MaxBufferedBytes: 1 << 20, MaxBufferedTime: time.Hour}}
+	b.logger = slog.New(slog.DiscardHandler)
+	if nondetBool() {
+		b.config.MaxBufferedRows = 1
+	}
+	vpSetClock(2)
+	bufs := map[string]*partitionBuffer{}
+	rowCount, byteCount := 0, 0
+	var started time.Time
+	nOld := nondetChoice(3)
+	var waiters []chan error
+	for i := 0; i < nOld; i++ {
+		waiters = append(waiters, make(chan error, 2))
+	}
+	old := append([]chan error(nil), waiters...)
+	if nOld > 0 {
+		bufs[""] = vpPartitionBuffer("")
+		rowCount, byteCount = 1, 6
+		started = time.Now()
+	}
+	kind := nondetChoice(4)
+	d := make(chan error, 2)
+	req := &ingestRequest{doneChan: d}
+	switch kind {
+	case 0:
+		req.forceFlush = true
+	case 2:
+		req.rows = []map[string]any{vpBatchRow(false, "")}
+	case 3:
+		req.rows = []map[string]any{vpBatchRow(true, "")}
+	}
+	vpTriggered = nil
+	b.processIngestRequest(context.Background(), req, bufs, &waiters, &rowCount, &byteCount, &started)
+	vpAssert(len(vpTriggered) <= 1, "C07: one request produced more than one flush request")
+	switch kind {
+	case 0:
+		vpAssert(len(d) == 0, "C07: the ingest actor answered a Flush request itself instead of queueing it behind earlier flushes")
+		vpAssert(len(vpTriggered) == 1, "C07: a Flush request was not handed to the flush queue")
+	case 1:
+		vpAssert(len(d) == 1 && len(vpTriggered) == 0 && len(waiters) == nOld, "C05: an empty batch was not answered exactly once on the spot")
+	case 3:
+		vpAssert(len(d) == 1 && len(vpTriggered) == 0 && len(waiters) == nOld, "C05: a rejected batch was not answered exactly once on the spot")
+	}
+	if len(vpTriggered) == 1 {
+		got := vpTriggered[0].doneChans
+		want := old
+		if kind == 0 || kind == 2 {
+			want = append(append([]chan error(nil), old...), d)
+		}
+		vpAssert(len(got) == len(want), "C05: the flush request does not carry exactly the waiters of the buffered batches")
+		for i := range want {
+			vpAssert(got[i] == want[i], "C07: waiters handed to the flush queue are not in acceptance order")
+		}
+		vpAssert(len(waiters) == 0 && len(bufs) == 0 && rowCount == 0 && byteCount == 0, "C05: the actor kept waiters or rows after handing them to a flush")
+	} else if kind == 2 {
+		vpAssert(len(waiters) == nOld+1 && waiters[nOld] == d, "C07: an accepted batch's waiter was not appended behind the earlier ones")
+		for i := range old {
+			vpAssert(waiters[i] == old[i], "C07: earlier waiters were reordered")
+		}
+		vpAssert(len(d) == 0, "C06: a buffered batch was acknowledged before any flush")
+	}
+}
+
+// ---- C08: Stop and its deadline ----
+
+// vpLateCtx: a context whose AfterFunc callbacks run only when the harness says so (a Context
+// implementation that runs context.AfterFunc callbacks late).
+type vpLateCtx struct {
+	*vpCtxNode
+	pending []func()
+}
+
+func (c *vpLateCtx) AfterFunc(f func()) func() bool {
+	c.pending = append(c.pending, f)
+	return func() bool { return true }
+}
+
+//vp:override (*bs.bloomEntrySets).indexRow=vpIndexRowNop
+//vp:override (*bs.bloomEntrySets).buildFilters=vpBuildFiltersStub
+//vp:override bs.encodeFilterSection=vpEncodeSectionStub
+//vp:maxsteps 300000
+//vp:bounds started engine, ingest buffer 1, MaxBufferedRows 1; store wedged inside CreateFile (honouring or ignoring its context); 1..2 accepted batches (one flush in flight, one queued), buffered or abandoned unbuffered waiters; Stop with a deadline that expires once everything has parked; the deadline context is of the context-package kind or runs AfterFunc callbacks late
+func H_C08_stop_obeys_its_deadline_and_starts_no_new_store_work() {
+	w := vpNewWorld()
+	w.failCreate, w.failWrite, w.failClose, w.failUpdate, w.failTombstone = false, false, false, false, false
+	w.wedge = make(chan struct{})
+	w.wedgeIgnoresCtx = nondetBool()
+	b := vpNewIngestSystem(w, vpSysCfg{ingestBuf: 1, maxBufferedRows: 1, maxRowGroupRows: 1000, maxBufferedTime: time.Hour})
+	vpSetClock(2)
+	b.Start()
+	unbuffered := nondetBool()
+	n := 1 + nondetChoice(2)
+	var dones []chan error
+	for i := 0; i < n; i++ {
+		d := make(chan error, 1)
+		if unbuffered {
+			d = make(chan error) // abandoned: nobody ever receives
+		}
+		dones = append(dones, d)
+		vpAssert(b.IngestRows(context.Background(), []map[string]any{vpBatchRow(false, "p")}, d) == nil, "C05: IngestRows refused a batch on a running engine")
+	}
+	vpQuiesce() // first flush parked in CreateFile, second (if any) queued
+	vpAssert(w.createCalls == 1, "harness: the first flush did not reach the wedged store")
+	node := vpNewCtx(nil)
+	late := nondetBool()
+	var deadline context.Context = node
+	var lateCtx *vpLateCtx
+	if late {
+		lateCtx = &vpLateCtx{vpCtxNode: node}
+		deadline = lateCtx
+	}
+	go func() {
+		vpQuiesce() // the deadline expires once Stop is waiting
+		node.cancelWith(context.DeadlineExceeded)
+	}()
+	serr := b.Stop(deadline)
+	if w.wedgeIgnoresCtx || unbuffered {
+		vpAssert(serr != nil, "harness: Stop returned nil although the pipeline is wedged")
+	}
+	if serr == nil {
+		return
+	}
+	vpAssert(errors.Is(serr, context.DeadlineExceeded), "C08: Stop's deadline error does not wrap the context error")
+	// Stop has returned the deadline error: flush work must already be aborted
+	vpAssert(b.flushCtx.Err() != nil, "C08: Stop returned its deadline error while the flush context is still live (a queued flush can still start store work)")
+	creates, updates := w.createCalls, w.count(evUpdateOK, -1)+w.count(evUpdateFail, -1)
+	close(w.wedge) // the wedged store call comes back after Stop has returned
+	vpQuiesce()
+	vpAssert(w.createCalls == creates, "C08: a new CreateFile was started after Stop had returned its deadline error")
+	newUpdates := w.count(evUpdateOK, -1) + w.count(evUpdateFail, -1) - updates
+	if !w.wedgeIgnoresCtx {
+		vpAssert(newUpdates == 0, "C08: a MetaStore.Update was started after Stop had returned its deadline error")
+	}
+	if !unbuffered {
+		for _, d := range dones[1:] {
+			vpAssert(len(d) == 1, "C08: a waiter that can still receive got silence instead of an error after the deadline")
+			vpAssert(<-d != nil, "C08: a waiter of an abandoned flush was acknowledged nil")
+		}
+	}
+	late2 := vpSubmit(b, context.Background(), 0)
+	vpAssert(!late2.accepted, "C08: IngestRows accepted a batch after Stop")
+	_ = lateCtx
+}
+
+// A caller blocked in IngestRows on a full ingest buffer holds the state read lock; Stop must still
+// honour its deadline (the abort has to be armed before anything that can block).
+//
+//vp:override (*bs.bloomEntrySets).indexRow=vpIndexRowNop
+//vp:override (*bs.bloomEntrySets).buildFilters=vpBuildFiltersStub
+//vp:override bs.encodeFilterSection=vpEncodeSectionStub
+//vp:maxsteps 300000
+//vp:bounds started engine, ingest buffer 1, MaxBufferedRows 1, store wedged inside CreateFile (honouring its context), pipeline filled to the brim (one flush in flight, one queued, the actor blocked on the flush queue, one request in the ingest buffer) and one further IngestRows caller blocked on the full buffer; Stop with a deadline that expires once everything has parked
+func H_C08_stop_with_blocked_callers_returns_by_its_deadline() {
+	w := vpNewWorld()
+	w.failCreate, w.failWrite, w.failClose, w.failUpdate, w.failTombstone = false, false, false, false, false
+	w.wedge = make(chan struct{})
+	b := vpNewIngestSystem(w, vpSysCfg{ingestBuf: 1, maxBufferedRows: 1, maxRowGroupRows: 1000, maxBufferedTime: time.Hour})
+	vpSetClock(2)
+	b.Start()
+	var dones []chan error
+	for i := 0; i < 4; i++ {
+		d := make(chan error, 1)
+		dones = append(dones, d)
+		vpAssert(b.IngestRows(context.Background(), []map[string]any{vpBatchRow(false, "p")}, d) == nil, "C05: IngestRows refused a batch on a running engine")
+		vpQuiesce()
+	}
+	vpAssert(len(b.ingestChan) == 1 && len(b.flushChan) == 1, "harness: the pipeline is not full")
+	blockedRes := make(chan error, 1)
+	d5 := make(chan error, 1)
+	go func() {
+		blockedRes <- b.IngestRows(context.Background(), []map[string]any{vpBatchRow(false, "p")}, d5)
+	}()
+	vpQuiesce()
+	vpAssert(len(blockedRes) == 0, "C09: IngestRows returned although the ingest buffer is full")
+	deadline := vpNewCtx(nil)
+	go func() {
+		vpQuiesce()
+		deadline.cancelWith(context.DeadlineExceeded)
+	}()
+	serr := b.Stop(deadline) // a Stop that never returns shows as a deadlock of this harness
+	vpAssert(serr == nil || errors.Is(serr, context.DeadlineExceeded), "C08: Stop returned an unexpected error")
+	ierr := <-blockedRes
+	if ierr == nil {
+		vpQuiesce()
+		vpAssert(len(d5) == 1, "C05/C08: a batch accepted while Stop was in progress got silence")
+	}
+	for _, d := range dones {
+		vpAssert(len(d) == 1, "C08: a waiter that can still receive got silence instead of an answer after the deadline")
+	}
+}
+
+// ---- C09: bounded backpressure ----
+
+//vp:override (*bs.bloomEntrySets).indexRow=vpIndexRowNop
+//vp:override (*bs.bloomEntrySets).buildFilters=vpBuildFiltersStub
+//vp:override bs.encodeFilterSection=vpEncodeSectionStub
+//vp:maxsteps 400000
+//vp:bounds started engine, ingest buffer 1..2, MaxBufferedRows 1..2, store wedged inside CreateFile; one producer goroutine submitting up to 9 one-row batches back to back; observed once every goroutine has parked, then the store is released and the engine stopped
+func H_C09_stalled_flushing_blocks_producers_within_a_bound() {
+	w := vpNewWorld()
+	w.failCreate, w.failWrite, w.failClose, w.failUpdate, w.failTombstone = false, false, false, false, false
+	w.wedge = make(chan struct{})
+	c := vpSysCfg{ingestBuf: 1 + nondetChoice(2), maxBufferedRows: 1 + nondetChoice(2), maxRowGroupRows: 1000, maxBufferedTime: time.Hour}
+	b := vpNewIngestSystem(w, c)
+	vpSetClock(2)
+	b.Start()
+	const total = 9
+	accepted := 0
+	producerDone := false
+	var dones []chan error
+	go func() {
+		for i := 0; i < total; i++ {
+			d := make(chan error, 1)
+			if b.IngestRows(context.Background(), []map[string]any{vpBatchRow(false, "p")}, d) == nil {
+				accepted++
+				dones = append(dones, d)
+			}
+		}
+		producerDone = true
+	}()
+	vpQuiesce()
+	// in flight: one flush in the store, one queued, one in the actor's hands (each up to
+	// MaxBufferedRows batches), plus the ingest buffer
+	bound := 3*c.maxBufferedRows + c.ingestBuf
+	vpAssert(!producerDone, "C09: every IngestRows call returned although flushing is stalled (no backpressure)")
+	vpAssert(accepted <= bound, "C09: more batches were accepted than the documented bound while flushing is stalled")
+	vpAssert(len(b.flushChan) <= 1 && len(b.ingestChan) <= c.ingestBuf, "C09: a queue grew beyond its configured capacity")
+	unanswered := 0
+	for _, d := range dones {
+		if len(d) == 0 {
+			unanswered++
+		}
+	}
+	vpAssert(unanswered == accepted, "C06: a batch was acknowledged while the store is wedged")
+	close(w.wedge)
+	vpQuiesce()
+	vpAssert(producerDone && accepted == total, "C09: producers did not resume once flushing resumed")
+	vpAssert(b.Stop(context.Background()) == nil, "C08: Stop returned an error")
+	for _, d := range dones {
+		vpAssert(len(d) == 1, "C05: an accepted batch was not answered exactly once")
+	}
+}
+
+//vp:bounds every configuration field that NewBloomSearchEngine validates is an unconstrained value; IngestBufferSize and MaxQueryConcurrency 1..3 on the accepting path
+func H_C09_constructor_sizes_the_queues_from_the_configuration() {
+	cfg := BloomSearchEngineConfig{
+		Tokenizer: BasicWhitespaceLowerTokenizer, MaxRowGroupRows: nondetInt(), MaxRowGroupBytes: nondetInt(),
+		MaxFileSize: nondetInt(), MaxBufferedRows: nondetInt(), MaxBufferedBytes: nondetInt(), MaxBufferedTime: time.Duration(nondetInt64()),
+		IngestBufferSize: nondetInt(), BloomFalsePositiveRate: 0.01, MaxQueryConcurrency: nondetInt(), MaxFilesToMergePerOperation: nondetInt(),
+		RowDataCompression: CompressionNone,
+	}
+	if cfg.IngestBufferSize > 0 {
+		vpAssume(cfg.IngestBufferSize <= 3)
+	}
+	if cfg.MaxQueryConcurrency > 0 {
+		vpAssume(cfg.MaxQueryConcurrency <= 3)
+	}
+	w := vpNewWorld()
+	b, err := NewBloomSearchEngine(cfg, &vpMeta{w}, &vpStore{w})
+	valid := cfg.MaxRowGroupRows > 0 && cfg.MaxRowGroupBytes > 0 && cfg.MaxFileSize > 0 && cfg.MaxBufferedRows > 0 && cfg.MaxBufferedBytes > 0 &&
+		cfg.MaxBufferedTime > 0 && cfg.IngestBufferSize > 0 && cfg.MaxQueryConcurrency > 0 && cfg.MaxFilesToMergePerOperation >= 2
+	if !valid {
+		vpAssert(err != nil && b == nil && errors.Is(err, ErrInvalidConfig), "C09: an invalid configuration was accepted")
+		return
+	}
+	vpAssert(err == nil && b != nil, "C09: a valid configuration was rejected")
+	vpAssert(cap(b.ingestChan) == cfg.IngestBufferSize, "C09: the ingest buffer is not IngestBufferSize deep")
+	vpAssert(cap(b.flushChan) == 1, "C09: the flush queue is not one request deep")
+	vpAssert(cap(b.querySemaphore) == cfg.MaxQueryConcurrency, "C22: the query semaphore does not have MaxQueryConcurrency slots")
+	vpAssert(len(b.ingestChan) == 0 && len(b.flushChan) == 0 && len(b.querySemaphore) == 0, "C09: queues not empty at construction")
+	vpAssert(!b.started && !b.stopped && b.ctx.Err() == nil && b.flushCtx.Err() == nil, "C05: a new engine is not in its initial lifecycle state")
+}
+
+// ---- C10: buffered rows are flushed without an explicit Flush ----
+
+// One step of the ingest actor from an arbitrary buffered state with symbolic limits: whenever a
+// row / byte / partition limit is reached by the batch just accepted, everything buffered —
+// including this batch and its waiter — is handed to the flush queue before the step returns;
+// otherwise the batch is buffered, its waiter queued, and the buffer clock is running.
+//
+//vp:override (*bs.BloomSearchEngine).triggerFlush=vpTriggerRec
+//vp:override (*bs.bloomEntrySets).indexRow=vpIndexRowNop
+//vp:bounds all four size limits symbolic (1..2^40), MaxBufferedTime one hour (elapsed time arbitrary, so the time trigger fires or not); buffered state: one partition with symbolic row/byte counts below its limits, symbolic totals below the buffer limits, clock running; a batch of 1..2 rows (13 bytes each) into the buffered partition or a new one; elapsed time arbitrary
+func H_C10_reaching_a_limit_hands_the_buffer_to_a_flush() {
+	lim := func() int {
+		v := nondetInt()
+		vpAssume(v >= 1 && v < 1<<40)
+		return v
+	}
+	b := &BloomSearchEngine{config: BloomSearchEngineConfig{BloomFalsePositiveRate: 0.01, RowDataCompression: CompressionNone,
+		MaxRowGroupRows: lim(), MaxRowGroupBytes: lim(), MaxBufferedRows: lim(), MaxBufferedBytes: lim(), MaxBufferedTime: time.Hour}}
+	b.logger = slog.New(slog.DiscardHandler)
+	b.config.PartitionFunc = vpPartitionByP
+	pre := vpPartitionBuffer("p")
+	pre.rowCount, pre.uncompressedSize = nondetInt(), nondetInt()
+	vpAssume(pre.rowCount >= 1 && pre.rowCount < b.config.MaxRowGroupRows && pre.uncompressedSize >= 1 && pre.uncompressedSize < b.config.MaxRowGroupBytes)
+	rowCount, byteCount := nondetInt(), nondetInt()
+	vpAssume(rowCount >= pre.rowCount && rowCount < b.config.MaxBufferedRows && byteCount >= pre.uncompressedSize && byteCount < b.config.MaxBufferedBytes)
+	vpAssume(rowCount < 1<<40 && byteCount < 1<<40)
+	bufs := map[string]*partitionBuffer{"p": pre}
+	w0 := make(chan error, 2)
+	waiters := []chan error{w0}
+	started := time.Now()
+	n := 1 + nondetChoice(2)
+	part := "p"
+	if nondetBool() {
+		part = "q"
+	}
+	rows := make([]map[string]any, n)
+	for i := range rows {
+		rows[i] = vpBatchRow(false, part)
+	}
+	d := make(chan error, 2)
+	vpTriggered = nil
+	preRows, preBytes := pre.rowCount, pre.uncompressedSize
+	rowCountBefore, byteCountBefore := rowCount, byteCount
+	b.processIngestRequest(context.Background(), &ingestRequest{rows: rows, doneChan: d}, bufs, &waiters, &rowCount, &byteCount, &started)
+	vpAssert(len(d) == 0, "C06: a buffered batch was acknowledged by the ingest actor itself")
+	vpAssert(len(vpTriggered) <= 1, "C07: one batch produced more than one flush request")
+	if len(vpTriggered) == 1 {
+		req := vpTriggered[0]
+		vpAssert(len(req.doneChans) == 2 && req.doneChans[0] == w0 && req.doneChans[1] == d, "C05/C10: the flush request does not carry the buffered batches' waiters in order")
+		vpAssert(req.partitionBuffers["p"] == pre && (part == "p" || req.partitionBuffers["q"] != nil), "C10: the flush request does not carry every buffered partition")
+		vpAssert(len(bufs) == 0 && len(waiters) == 0 && rowCount == 0 && byteCount == 0 && started.IsZero(), "C10: the actor's buffer was not reset after the hand-off")
+		return
+	}
+	// not handed to a flush: the batch is buffered and every limit is still ahead
+	vpAssert(len(waiters) == 2 && waiters[1] == d, "C05: the accepted batch's waiter was not queued")
+	vpAssert(!started.IsZero(), "C10: rows are buffered but the buffer clock is not running")
+	pb := bufs[part]
+	vpAssert(pb != nil, "C10: the accepted batch's partition has no buffer")
+	added := byteCount - byteCountBefore
+	vpAssert(rowCount == rowCountBefore+n && added >= n*LengthPrefixSize, "C10: buffered row/byte totals do not count the accepted batch")
+	if part == "p" {
+		vpAssert(pb.rowCount == preRows+n && pb.uncompressedSize == preBytes+added, "C10: the partition's row/byte counts do not count the accepted batch")
+	} else {
+		vpAssert(pb.rowCount == n && pb.uncompressedSize == added && pre.rowCount == preRows && pre.uncompressedSize == preBytes, "C10: the partitions' row/byte counts do not count the accepted batch")
+	}
+	vpAssert(rowCount < b.config.MaxBufferedRows, "C10: MaxBufferedRows was reached but the buffer was not handed to a flush")
+	vpAssert(byteCount < b.config.MaxBufferedBytes, "C10: MaxBufferedBytes was reached but the buffer was not handed to a flush")
+	vpAssert(pb.rowCount < b.config.MaxRowGroupRows, "C10: a partition reached MaxRowGroupRows but the buffer was not handed to a flush")
+	vpAssert(pb.uncompressedSize < b.config.MaxRowGroupBytes, "C10: a partition reached MaxRowGroupBytes but the buffer was not handed to a flush")
+}
+
+// The time limit: rows buffered below every size limit are flushed by the actor's ticker once
+// MaxBufferedTime has passed, with no Flush, no Stop and no further ingest — also when a rejected
+// or an empty batch arrived in between.
+//
+//vp:override (*bs.bloomEntrySets).indexRow=vpIndexRowNop
+//vp:override (*bs.bloomEntrySets).buildFilters=vpBuildFiltersStub
+//vp:override bs.encodeFilterSection=vpEncodeSectionStub
+//vp:nowitness the executor steers the clock and the ticker (vpSetClock / vpTick); natively time passes on its own
+//vp:maxsteps 300000
+//vp:bounds started engine with all size limits far away; one good batch buffered while the clock reports no elapsed time, optionally followed by a rejected or an empty batch; then the clock reports a long elapsed time and the ticker fires 1..2 times; no store faults
+func H_C10_ticker_flushes_buffered_rows_after_max_buffered_time() {
+	w := vpNewWorld()
+	w.failCreate, w.failWrite, w.failClose, w.failUpdate, w.failTombstone = false, false, false, false, false
+	b := vpNewIngestSystem(w, vpSysCfg{ingestBuf: 2, maxBufferedRows: 1000, maxRowGroupRows: 1000, maxBufferedTime: time.Second})
+	vpSetClock(2) // nothing has elapsed while the batches are accepted
+	b.Start()
+	good := vpSubmit(b, context.Background(), 0)
+	vpAssert(good.accepted, "C05: IngestRows refused a batch on a running engine")
+	var other *vpBatch
+	switch nondetChoice(3) {
+	case 1:
+		other = vpSubmit(b, context.Background(), 2)
+	case 2:
+		other = vpSubmit(b, context.Background(), 1)
+	}
+	vpQuiesce()
+	vpAssert(len(good.done) == 0 && w.createCalls == 0, "C10: rows below every limit were flushed before MaxBufferedTime")
+	if other != nil {
+		vpAssert(len(other.done) == 1, "C05: a rejected or empty batch was not answered on the spot")
+	}
+	vpSetClock(1) // MaxBufferedTime has long passed
+	ticks := 1 + nondetChoice(2)
+	for i := 0; i < ticks; i++ {
+		vpTick()
+		vpQuiesce()
+	}
+	vpAssert(len(good.done) == 1, "C10: buffered rows were not flushed although MaxBufferedTime has passed and the ticker fired")
+	vpAssert(<-good.done == nil && w.count(evUpdateOK, -1) == 1, "C06: the time-triggered flush did not commit the rows it acknowledged")
+	vpAssert(b.Stop(context.Background()) == nil, "C08: Stop returned an error")
 }
